@@ -742,3 +742,81 @@ def r09_1b(ctx):
         ctx.check(ok and bool(blocks), R, key + '|MoveTo re-initialises ' + nm, b.loc(), '`%s` reset to its initial value %s at every MoveTo' % (nm, sig),
                   'per-subpath state `%s` (initialised to %s before the op loop and changed while dashing a subpath) is not reset on every path of the MoveTo arm: the next subpath starts with the previous subpath\'s value (e.g. a later closed subpath inside its first dash is not closed)' % (nm, sig))
     ctx.floor(R, 'per-subpath state variables of dash_path', n, 3)
+
+
+def r04_6(ctx):
+    """join_line: for an interior angle both normals are flipped AND exchanged (the join is always built on the outer side
+    with the same orientation as the segments, so that the NonZero union of the pieces has no holes)"""
+    R = 'R04.6'
+    b = ctx.body(ST + 'join_line', R)
+    an = ctx.an(b)
+    cfg = an.cfg
+    key = 'stroke::join_line'
+    sw = None
+    for si, t in b.terminators('switch'):
+        if si in cfg.reach and t.get('ty') == 'bool':
+            c = an.term_at(si, len(b.blocks[si]['st']), t['o'])
+            if is_call(c, 'stroke::is_interior_angle'):
+                sw = (si, t, c)
+    if not ctx.check(sw is not None, R, key + '|interior test', b.loc(), 'branch on is_interior_angle found', 'join_line no longer branches on is_interior_angle (fail closed)'):
+        return
+    si, t, c = sw
+    ok_args = strip_all(c[2][0]) in (('param', 4), ('mem', 4)) and strip_all(c[2][1]) in (('param', 5), ('mem', 5))
+    ctx.check(ok_args, R, key + '|interior test args', b.loc(), 'is_interior_angle(s1_normal, s2_normal)', 'is_interior_angle is not called on (s1_normal, s2_normal)')
+    true_t = t['otherwise']
+    stop = cfg.ipdom(si)
+    env = {4: 'N1', 5: 'N2'}
+    bb = true_t
+    steps = 0
+    bad = None
+    while bb != stop and steps < 50 and bad is None:
+        steps += 1
+        blk = b.blocks[bb]
+        for st_ in blk['st']:
+            if st_['k'] != 'assign':
+                continue
+            p, rv = st_['p'], st_['rv']
+            if p['pr']:
+                if p['l'] in (4, 5):
+                    bad = 'partial store to a normal'
+                continue
+            if rv['k'] == 'use' and rv['o']['k'] in ('copy', 'move') and not rv['o']['p']['pr']:
+                env[p['l']] = env.get(rv['o']['p']['l'], ('?', rv['o']['p']['l']))
+            elif rv['k'] in ('ref', 'rawptr') and not rv['p']['pr']:
+                env[p['l']] = ('ref', rv['p']['l'])
+            elif rv['k'] in ('ref', 'rawptr') and len(rv['p']['pr']) == 1 and rv['p']['pr'][0]['k'] == 'deref':
+                env[p['l']] = env.get(rv['p']['l'], ('?', rv['p']['l']))
+            else:
+                env[p['l']] = ('?', p['l'])
+        tm = blk['t']
+        if tm['k'] == 'call':
+            c2 = callee_of(tm)
+            name = c2['def'] if c2 else ''
+            args = []
+            for a in tm['args']:
+                if a['k'] in ('copy', 'move') and not a['p']['pr']:
+                    args.append(env.get(a['p']['l'], ('?', a['p']['l'])))
+                else:
+                    args.append(('?',))
+            dl = tm['dest']['l']
+            if name == ST + 'flip':
+                env[dl] = ('flip', args[0])
+            elif name.endswith('mem::swap'):
+                if len(args) == 2 and args[0][0] == 'ref' and args[1][0] == 'ref':
+                    x, y = args[0][1], args[1][1]
+                    env[x], env[y] = env.get(y), env.get(x)
+                else:
+                    bad = 'swap on unknown places'
+            else:
+                env[dl] = ('?', dl)
+            bb = tm.get('t')
+        elif tm['k'] == 'goto':
+            bb = tm['t']
+        elif tm['k'] in ('drop', 'assert'):
+            bb = tm['t']
+        else:
+            bad = 'branching inside the interior-angle normalisation'
+    got = (env.get(4), env.get(5))
+    want = (('flip', 'N2'), ('flip', 'N1'))
+    ctx.check(bad is None and got == want, R, key + '|interior normalisation', b.loc(), 'interior angle: (s1, s2) := (flip(s2), flip(s1))',
+              'for an interior angle join_line leaves (s1_normal, s2_normal) = %s%s; it must be (flip(s2), flip(s1)): flipping without exchanging (or the reverse) builds the join with the opposite orientation to the segments, so under the NonZero fill it cancels against overlapping pieces and leaves holes on right-hand turns' % (got, (' (%s)' % bad) if bad else ''))
